@@ -381,9 +381,158 @@ Lemma alloc_sgpd_alst_pinned_balloons :
   exists o, alloc_sgpd_alst false 28 8 alst_witness = Ok o /\ o_alloc o = 4294967292 /\ lenN alst_witness = 20.
 Proof. eexists. split; [vm_compute; reflexivity|]. split; reflexivity. Qed.
 
+(* ---- sgpd: the whole entry loop ---- *)
+Lemma rd_skip_state body w s : let s' := rd_skip body w s in
+  (r_err s' = true /\ r_pos s' = r_pos s) \/
+  (r_err s' = false /\ r_err s = false /\ r_pos s' = r_pos s + w /\ r_pos s' <= lenN body).
+Proof. unfold rd_skip. apply rd_n_state. Qed.
+
+Lemma rd_loop_pos body cnt e s : r_pos s <= lenN body -> r_pos (rd_loop body cnt e s) <= lenN body.
+Proof.
+  intros H. unfold rd_loop. destruct (r_err s); [exact H|]. destruct ((e =? 0) || (cnt =? 0)) eqn:Z; [exact H|].
+  apply orb_false_iff in Z. destruct Z as [Z1 Z2]. bools.
+  destruct (lenN body <? r_pos s + cnt * e) eqn:L; cbn [r_pos]; bools; [|lia].
+  pose proof (N.mul_div_le (lenN body - r_pos s) e Z1). lia.
+Qed.
+
+(* alst entry with positions: always bounded; when it reports ok, it consumed exactly 4 + 4*it bytes = its Size() *)
+Lemma alloc_alst_entry_spec body len1 s : r_pos s <= lenN body ->
+  exists ok al it s', alloc_alst_entry true body len1 s = Ok (ok, al, it, s') /\
+    al <= lenN body + 262140 /\ it <= lenN body + 65535 /\ r_pos s' <= lenN body /\
+    (ok = true -> r_pos s' = r_pos s + 4 + 4 * it /\ al = 4 * it).
+Proof.
+  intros Hp. unfold alloc_alst_entry.
+  pose proof (rd_n_state body 2 s) as A. pose proof (rd_n_lt body 2 s) as L.
+  destruct (rd_n body 2 s) as [roll s1]. cbn [fst snd] in A, L. change (256 ^ 2) with 65536 in L.
+  pose proof (rd_n_state body 2 s1) as B. destruct (rd_n body 2 s1) as [x s2]. cbn [snd] in B.
+  assert (P1 : r_pos s1 <= lenN body) by (destruct A as [(_ & ->)|(_ & _ & _ & ?)]; assumption).
+  assert (P2 : r_pos s2 <= lenN body) by (destruct B as [(_ & ->)|(_ & _ & _ & ?)]; assumption).
+  pose proof (rd_loop_state body roll 4 s2) as C. pose proof (rd_loop_pos body roll 4 s2 P2) as P3.
+  set (s3 := rd_loop body roll 4 s2) in *. cbn zeta in C. cbn [andb].
+  destruct (r_err s3) eqn:E3.
+  { do 4 eexists; split; [reflexivity|]. repeat split; try lia; discriminate. }
+  destruct C as [C|(_ & C1 & C2 & _)]; [congruence|].
+  destruct B as [(B1 & _)|(_ & B1 & B2 & _)]; [congruence|].
+  destruct A as [(A1 & _)|(_ & A1 & A2 & _)]; [congruence|].
+  destruct (len1 <? 4 + 4 * roll); [do 4 eexists; split; [reflexivity|]; repeat split; try lia; discriminate|].
+  set (rem := ((len1 + 4294967296 - (4 + 4 * roll)) mod 4294967296) / 4).
+  destruct (rem =? 0) eqn:Er.
+  { do 4 eexists; split; [reflexivity|]. repeat split; try lia. }
+  destruct ((lenN body - r_pos s3) / 4 <? rem) eqn:E; [do 4 eexists; split; [reflexivity|]; repeat split; try lia; discriminate|].
+  bools.
+  assert (M : (lenN body - r_pos s3) / 4 * 4 <= lenN body - r_pos s3) by (rewrite N.mul_comm; apply N.mul_div_le; discriminate).
+  pose proof (rd_loop_state body rem 4 s3) as D. pose proof (rd_loop_pos body rem 4 s3 P3) as P4. cbn zeta in D.
+  do 4 eexists; split; [reflexivity|]. repeat split; try lia.
+  match goal with H0 : negb _ = true |- _ => apply negb_true_iff in H0; destruct D as [D|(_ & _ & D2 & _)]; [congruence|lia] end.
+Qed.
+
+Ltac fin5 := do 5 eexists; split; [reflexivity|]; split; [lia|]; split; [lia|]; split; [lia|]; intros Ok1 Hsz.
+
+Lemma sg_entry_spec k body len1 s : r_pos s <= lenN body -> len1 <> 0 ->
+  exists ok size a its s', sg_entry k body len1 s = (ok, size, a, its, s') /\
+    a <= lenN body + 262204 /\ its <= lenN body + 65535 /\ r_pos s' <= lenN body /\
+    (ok = true -> size = len1 -> r_pos s + 1 <= r_pos s' /\ a <= 64 + (r_pos s' - r_pos s) /\ its <= r_pos s' - r_pos s).
+Proof.
+  intros Hp Hl. destruct k; cbn [sg_entry].
+  - (* seig *)
+    pose proof (rd_skip_state body 1 s) as A1. set (s1 := rd_skip body 1 s) in *. cbn zeta in A1.
+    pose proof (rd_skip_state body 1 s1) as A2. set (s2 := rd_skip body 1 s1) in *. cbn zeta in A2.
+    pose proof (rd_n_state body 1 s2) as A3. destruct (rd_n body 1 s2) as [prot s3]. cbn [snd] in A3.
+    pose proof (rd_n_state body 1 s3) as A4. destruct (rd_n body 1 s3) as [piv s4]. cbn [snd] in A4.
+    pose proof (rd_skip_state body 16 s4) as A5. set (s5 := rd_skip body 16 s4) in *. cbn zeta in A5.
+    assert (Q1 : r_pos s1 <= lenN body) by (destruct A1 as [(_ & ->)|(_ & _ & _ & ?)]; assumption).
+    assert (Q2 : r_pos s2 <= lenN body) by (destruct A2 as [(_ & ->)|(_ & _ & _ & ?)]; assumption).
+    assert (Q3 : r_pos s3 <= lenN body) by (destruct A3 as [(_ & ->)|(_ & _ & _ & ?)]; assumption).
+    assert (Q4 : r_pos s4 <= lenN body) by (destruct A4 as [(_ & ->)|(_ & _ & _ & ?)]; assumption).
+    assert (Q5 : r_pos s5 <= lenN body) by (destruct A5 as [(_ & ->)|(_ & _ & _ & ?)]; assumption).
+    assert (G : r_err s5 = false -> r_pos s5 = r_pos s + 20).
+    { intros E. destruct A5 as [(A5 & _)|(_ & E4 & A5 & _)]; [congruence|].
+      destruct A4 as [(A4 & _)|(_ & E3 & A4 & _)]; [congruence|].
+      destruct A3 as [(A3 & _)|(_ & E2 & A3 & _)]; [congruence|].
+      destruct A2 as [(A2 & _)|(_ & E1 & A2 & _)]; [congruence|].
+      destruct A1 as [(A1 & _)|(_ & E0 & A1 & _)]; [congruence|]. lia. }
+    destruct ((prot =? 1) && (piv =? 0)).
+    + pose proof (rd_n_state body 1 s5) as A6. destruct (rd_n body 1 s5) as [civ s6]. cbn [snd] in A6.
+      pose proof (rd_skip_state body civ s6) as A7. set (s7 := rd_skip body civ s6) in *. cbn zeta in A7.
+      assert (Q6 : r_pos s6 <= lenN body) by (destruct A6 as [(_ & ->)|(_ & _ & _ & ?)]; assumption).
+      assert (Q7 : r_pos s7 <= lenN body) by (destruct A7 as [(_ & ->)|(_ & _ & _ & ?)]; assumption).
+      destruct (negb (len1 =? 21 + (if r_err s7 then 0 else civ))) eqn:En.
+      * fin5; discriminate.
+      * fin5. apply negb_true_iff in Ok1.
+        destruct A7 as [(A7 & _)|(_ & E6 & A7 & _)]; [congruence|].
+        destruct A6 as [(A6 & _)|(_ & E5 & A6 & _)]; [congruence|]. specialize (G E5). repeat split; lia.
+    + destruct (negb (len1 =? 20)).
+      * fin5; discriminate.
+      * fin5. apply negb_true_iff in Ok1. specialize (G Ok1). repeat split; lia.
+  - (* roll *)
+    pose proof (rd_skip_state body 2 s) as A. set (s1 := rd_skip body 2 s) in *. cbn zeta in A.
+    assert (Q1 : r_pos s1 <= lenN body) by (destruct A as [(_ & ->)|(_ & _ & _ & ?)]; assumption).
+    fin5. apply negb_true_iff in Ok1. destruct A as [(A & _)|(_ & _ & A & _)]; [congruence|]. repeat split; lia.
+  - (* rap *)
+    pose proof (rd_skip_state body 1 s) as A. set (s1 := rd_skip body 1 s) in *. cbn zeta in A.
+    assert (Q1 : r_pos s1 <= lenN body) by (destruct A as [(_ & ->)|(_ & _ & _ & ?)]; assumption).
+    fin5. apply negb_true_iff in Ok1. destruct A as [(A & _)|(_ & _ & A & _)]; [congruence|]. repeat split; lia.
+  - (* alst *)
+    destruct (alloc_alst_entry_spec body len1 s Hp) as (ok & al & it & s' & -> & Ha & Hi & Hq & Hk).
+    fin5. destruct (Hk Ok1). repeat split; lia.
+  - (* other *)
+    pose proof (rd_skip_state body len1 s) as A. set (s1 := rd_skip body len1 s) in *. cbn zeta in A.
+    assert (Q1 : r_pos s1 <= lenN body) by (destruct A as [(_ & ->)|(_ & _ & _ & ?)]; assumption).
+    fin5. apply negb_true_iff in Ok1. destruct A as [(A & _)|(_ & _ & A & _)]; [congruence|]. repeat split; lia.
+Qed.
+
+Lemma sgpd_loop_bounded body k v dlen cnt : forall fuel i s al it,
+  r_pos s <= lenN body -> lenN body - r_pos s < N.of_nat fuel ->
+  exists ok n al' it', sgpd_loop body fuel k v dlen cnt i s al it = Ok (ok, n, al', it') /\
+    al' <= al + 85 * (lenN body - r_pos s) + lenN body + 262208 /\
+    it' <= it + 2 * (lenN body - r_pos s) + lenN body + 65536.
+Proof.
+  induction fuel as [|f IH]; intros i s al it Hp Hf; [lia|].
+  cbn [sgpd_loop]. destruct (cnt <=? i); [do 4 eexists; split; [reflexivity|lia]|].
+  assert (V : exists len1 s1 al1, (if (1 <=? v) && (dlen =? 0) then (let '(l, s0) := rd_n body 4 s in (l, s0, al + 4)) else (dlen, s, al)) = (len1, s1, al1)
+              /\ r_pos s <= r_pos s1 /\ r_pos s1 <= lenN body /\ al1 <= al + 4 /\ (al1 = al \/ r_pos s1 = r_pos s + 4 \/ r_err s1 = true)).
+  { destruct ((1 <=? v) && (dlen =? 0)).
+    - pose proof (rd_n_state body 4 s) as A. destruct (rd_n body 4 s) as [l s0]. cbn [snd] in A.
+      do 3 eexists; split; [reflexivity|]. destruct A as [(A1 & A2)|(_ & _ & A2 & A3)]; repeat split; try lia; auto.
+    - do 3 eexists; split; [reflexivity|]. repeat split; try lia; auto. }
+  destruct V as (len1 & s1 & al1 & -> & V1 & V2 & V3 & V4).
+  destruct (len1 =? 0) eqn:E0; [do 4 eexists; split; [reflexivity|lia]|]. bools.
+  destruct (sg_entry_spec k body len1 s1 V2 E0) as (ok & size & a & its & s' & -> & Ha & Hi & Hq & Hk).
+  destruct ok; cbn [negb]; [|do 4 eexists; split; [reflexivity|lia]].
+  destruct (size =? len1) eqn:Es; cbn [negb]; [|do 4 eexists; split; [reflexivity|lia]]. bools.
+  destruct (Hk eq_refl Es) as (K1 & K2 & K3).
+  destruct (IH (i + 1) s' (al1 + a + 16) (it + 1 + its) Hq ltac:(lia)) as (ok2 & n & al' & it' & -> & Ha' & Hi').
+  do 4 eexists; split; [reflexivity|]. split; nia.
+Qed.
+
+Lemma alloc_sgpd_bounded hs hl body :
+  exists o, alloc_sgpd hs hl body = Ok o /\ o_alloc o <= 86 * lenN body + 262208 /\ o_iters o <= 3 * lenN body + 65536.
+Proof.
+  unfold alloc_sgpd.
+  assert (P1 := rd_n_pos body 4 rd0 ltac:(cbn; lia)). destruct (rd_n body 4 rd0) as [vf s1]. cbn [snd] in P1.
+  set (v := version_of vf). set (k := sgkind_of (firstn 4 (skipn 4 body))).
+  assert (P2 : r_pos (rd_skip body 4 s1) <= lenN body) by (apply rd_n_pos; exact P1).
+  set (s2 := rd_skip body 4 s1) in *.
+  assert (V : exists dlen s3, (if 1 <=? v then rd_n body 4 s2 else (0, s2)) = (dlen, s3) /\ r_pos s3 <= lenN body).
+  { destruct (1 <=? v).
+    - pose proof (rd_n_pos body 4 s2 P2). destruct (rd_n body 4 s2) as [d s3]. do 2 eexists; split; [reflexivity|assumption].
+    - do 2 eexists; split; [reflexivity|assumption]. }
+  destruct V as (dlen & s3 & -> & P3).
+  assert (P4 : r_pos (if 2 <=? v then rd_skip body 4 s3 else s3) <= lenN body).
+  { destruct (2 <=? v); [apply rd_n_pos|]; exact P3. }
+  set (s4 := if 2 <=? v then rd_skip body 4 s3 else s3) in *.
+  assert (P5 := rd_n_pos body 4 s4 P4). destruct (rd_n body 4 s4) as [cnt s5]. cbn [snd] in P5.
+  destruct (sgpd_loop_bounded body k v dlen cnt (S (length body)) 0 s5 0 0 P5) as (ok & n & al & it & -> & Ha & Hi).
+  { unfold lenN in *. lia. }
+  eexists; split; [reflexivity|]. cbn [o_alloc o_iters]. split; lia.
+Qed.
+
 (* ---- box level ---- *)
+Definition bounded_tab (r : res aout) (n : N) : Prop :=
+  exists o, r = Ok o /\ o_alloc o <= 86 * n + 1048560 /\ o_iters o <= 3 * n + 65536.
+
 Lemma alloc_table_bounded t p hs hl body : hs <> 34359738376 ->
-  bounded (alloc_table t p hs hl body) 6 1048560 1 65536 (hs + lenN body).
+  bounded_tab (alloc_table t p hs hl body) (hs + lenN body).
 Proof.
   intros Hn. assert (hs <= hs + lenN body) by lia. assert (lenN body <= hs + lenN body) by lia.
   destruct t; cbn [alloc_table].
@@ -404,6 +553,7 @@ Proof.
   - destruct (alloc_elst_bounded hs hl body) as (o & -> & ? & ?). exists o. split; [reflexivity|]. split; lia.
   - destruct (alloc_tfra_bounded hs hl body) as (o & -> & ? & ?). exists o. split; [reflexivity|]. split; lia.
   - destruct (alloc_sidx_bounded hs hl body) as (o & -> & ? & ?). exists o. split; [reflexivity|]. split; lia.
+  - destruct (alloc_sgpd_bounded hs hl body) as (o & -> & ? & ?). exists o. split; [reflexivity|]. split; lia.
   - destruct (alloc_pssh_bounded hs hl body) as (o & -> & ? & ?). exists o. split; [reflexivity|]. split; lia.
   - destruct (alloc_ssix_bounded hs hl body) as (o & -> & ? & ?). exists o. split; [reflexivity|]. split; lia.
   - destruct (alloc_treftype_bounded hs hl body) as (o & -> & ? & ?). exists o. split; [reflexivity|]. split; lia.
@@ -416,13 +566,14 @@ Lemma lenN_firstn {A} n (l : list A) : lenN (firstn n l) <= lenN l.
 Proof. unfold lenN. rewrite firstn_length. lia. Qed.
 
 Definition bounded_box (r : res aout) (n : N) : Prop :=
-  exists o, r = Ok o /\ o_alloc o <= 12 * n + 1048560 /\ o_iters o <= 2 * n + 65536.
+  exists o, r = Ok o /\ o_alloc o <= 172 * n + 1048560 /\ o_iters o <= 6 * n + 65536.
 
 Lemma bounded_box_rej n : bounded_box rej n.
 Proof. exists (mkO false 0 0 0). cbn. repeat split; lia. Qed.
 
 (* DecodeBoxSR / DecodeBox on ANY byte string whose box type is one of the modelled table boxes: the prologue
-   returns, allocates at most 12 * len + 1048560 bytes and loops at most 2 * len + 65536 times *)
+   returns, allocates at most 172 * len + 1048560 bytes and loops at most 6 * len + 65536 times (the factor is that
+   of the sgpd entry loop: 86 per byte of box size + bytes seen; every other box stays below 12 * len) *)
 Lemma alloc_box_sr_bounded bs : lenN bs < 34359738376 -> match alloc_box_sr bs with
                                 | Some r => bounded_box r (lenN bs)
                                 | None => True end.
@@ -432,10 +583,7 @@ Proof.
   - destruct (lenN bs <? hs) eqn:E; [apply bounded_box_rej|]. bools.
     destruct (alloc_table_bounded t true hs hl (skipn (N.to_nat hl) bs) ltac:(lia)) as (o & -> & Ha & Hi).
     pose proof (lenN_skipn (N.to_nat hl) bs). exists o. split; [reflexivity|]. split; lia.
-  - destruct (is_sgpd_alst bs hl); [|exact I].
-    destruct (lenN bs <? hs) eqn:E; [apply bounded_box_rej|]. bools.
-    destruct (alloc_sgpd_alst_bounded hs hl (skipn (N.to_nat hl) bs)) as (o & -> & Ha & Hi).
-    pose proof (lenN_skipn (N.to_nat hl) bs). exists o. split; [reflexivity|]. split; lia.
+  - exact I.
 Qed.
 
 Lemma alloc_box_r_bounded bs : lenN bs < 34359738376 -> match alloc_box_r bs with
@@ -448,9 +596,5 @@ Proof.
     destruct (alloc_table_bounded t false hs hl (firstn (N.to_nat (hs - hl)) (skipn (N.to_nat hl) bs)) ltac:(lia)) as (o & -> & Ha & Hi).
     pose proof (lenN_firstn (N.to_nat (hs - hl)) (skipn (N.to_nat hl) bs)). pose proof (lenN_skipn (N.to_nat hl) bs).
     exists o. split; [reflexivity|]. split; lia.
-  - destruct (is_sgpd_alst bs hl); [|exact I].
-    destruct (lenN bs <? hs) eqn:E; [apply bounded_box_rej|]. bools.
-    destruct (alloc_sgpd_alst_bounded hs hl (firstn (N.to_nat (hs - hl)) (skipn (N.to_nat hl) bs))) as (o & -> & Ha & Hi).
-    pose proof (lenN_firstn (N.to_nat (hs - hl)) (skipn (N.to_nat hl) bs)). pose proof (lenN_skipn (N.to_nat hl) bs).
-    exists o. split; [reflexivity|]. split; lia.
+  - exact I.
 Qed.
